@@ -17,6 +17,7 @@ import (
 	"os"
 	"os/exec"
 	"reflect"
+	"sort"
 	"strconv"
 	"strings"
 	"time"
@@ -225,6 +226,11 @@ func c01Classify(t reflect.Type, val reflect.Value, what string, got, want []byt
 			return "MapKeyInvalidUTF8Order"
 		}
 		return ""
+	}
+	// the same finding when several keys of one map are written as the same replacement characters: the members are
+	// the same up to their order (compared with the repeated keys kept), and the value does hold such a map
+	if c01HasInvalidUTF8MapKey(val, 0) && c01SortedMembers(got) != "" && c01SortedMembers(got) == c01SortedMembers(want) {
+		return "MapKeyInvalidUTF8Order"
 	}
 	var drop func(x interface{}, pred func(interface{}) bool) interface{}
 	drop = func(x interface{}, pred func(interface{}) bool) interface{} {
@@ -785,4 +791,37 @@ func c01ModelCases(o *Out) {
 			o.count("emission_model_cases", 1)
 		}
 	}
+}
+
+// c01SortedMembers renders a text with the members of every object sorted by key and rendered value, repeated keys kept
+func c01SortedMembers(b []byte) string {
+	v, err := parseOrdered(b)
+	if err != nil {
+		return ""
+	}
+	var render func(x interface{}) string
+	render = func(x interface{}) string {
+		switch t := x.(type) {
+		case oobject:
+			ms := make([]string, len(t))
+			for i, m := range t {
+				ms[i] = strconv.Quote(m.k) + ":" + render(m.v)
+			}
+			sort.Strings(ms)
+			return "{" + strings.Join(ms, ",") + "}"
+		case []interface{}:
+			es := make([]string, len(t))
+			for i, e := range t {
+				es[i] = render(e)
+			}
+			return "[" + strings.Join(es, ",") + "]"
+		case string:
+			return strconv.Quote(t)
+		case nil:
+			return "null"
+		default:
+			return fmt.Sprint(t)
+		}
+	}
+	return render(v)
 }
